@@ -14,7 +14,11 @@
        array construction, return; core functions cannot see frames or pending arguments (`callPrim_frame_independent`).
        A first compositional compile-correctness theorem is proved by induction on the form, for the call fragment
        (literals, local and global symbols, nested one-argument calls of global core functions): `compile_correct_calls`.
-       NOT proved: the same for `do` / `if` / `def` / `var` / `set` / `while` / `fn`, calls with other argument counts, the error
+       Session 4: the induction is extended to the statement fragment `e ::= literal | symbol | (f e) | (do e ...) | (def x e)`
+       (`compile_correct_statements`): block scopes pushed and popped, statements sequenced with the dropped value freed, `def`
+       binding a fresh register (copy) or aliasing a named immutable local, the environment of `Lang/Sem` (boxes) tied to registers
+       by an invariant split into a compile-time and a run-time part.
+       NOT proved: the same for `if` / `var` / `set` / `while` / `fn`, calls with other argument counts, the error
        outcome, tail position, far registers (see `compile_correct_partial` for the exact list). -/
 import JanetModel.Emit.Proofs
 import JanetModel.Bytecode.Exec
@@ -23,6 +27,7 @@ import JanetModel.Bytecode.ExecFrame
 import JanetModel.Gen.FiberFrame
 import JanetModel.Gen.Compile
 import JanetModel.Compile.Theorem
+import JanetModel.Compile.SeqTheorem
 namespace JanetModel.Props.C02
 open JanetModel.Emit
 
@@ -295,13 +300,79 @@ example (c : CState) (h : c.scopes = []) :
   have hl : ∀ x, lookupSlot c x = none := by intro x; simp [lookupSlot, h, searchScopes]
   exact .call1 "emit" _ {} (by decide) (by decide) (hl _) (.call1 "tuple" _ {} (by decide) (by decide) (hl _) (.lit _ trivial))
 
+/-- **Compile correctness, statement fragment** `e ::= literal | symbol | (f e) | (do e ...) | (def x e)` (`TS G`: `f` ranges over the
+    names `G` used as global core functions — not `apply`, not special forms — which are never defined; `x` is any other name;
+    nesting arbitrary: `def` inside call arguments, `do` inside `def`, ...), value used or dropped (`opts` without tail / hint), near
+    registers (`c.lim ≤ 0xF0`), any block or function scope that is not the top level (`sc.top = false`).
+    Invariant: `EnvS` (compile time) — every name the scopes resolve is a named near local whose register is allocated and whose
+    `Lang/Sem` box exists, every other name is unbound on both sides, the names in `G` are unbound; `EnvD` (run time) — the
+    register of every name holds the content of its box.
+    If the compiler model compiles `e` in state `c` to `slot` / `c'` and `Lang/Sem.eval` gives `e` the value `v`, environment `env'`
+    and state `s'`, then
+      * compile side: `c'` is `c` with code `seg` appended, constants appended to the pool, the value table extended, the innermost
+        scope's symbol list extended by `nsyms` (new names of `def`, or the hidden names of a closed `do`) and its allocator replaced
+        by one that keeps everything that was allocated allocated (`max` monotone); `slot` is a constant, a named local allocated at
+        exit, or an unnamed register that was free at entry, is allocated at exit and carries no name; the boxes only grow; the
+        compile-time invariant holds again for `c'`, `env'`, `s'`;
+      * run side: for every VM configuration `k` of one activation (frame `f0` on `rest`, any pc) whose world is `s`'s, whose pending
+        arguments are empty and whose registers satisfy `EnvD` — wherever `seg` sits in the function's code, with the function's
+        final constant pool / value table extending the ones at this point and the frame large enough — the VM reaches pc + |seg|
+        with empty pending arguments and world `s'`, every register allocated at entry unchanged, `slot` holding `v`, and `EnvD` for
+        `c'`, `env'`, `s'`.
+    By induction on the compile fuel (`Compile/SeqTheorem.lean`; cases in `SeqCall`, `SeqDo` — with an inner induction on the
+    statement list —, `SeqDef`), on top of the symbol-table lemmas of `Compile/Scope.lean` (`janetc_nameslot`, `janetc_scope`,
+    `janetc_popscope` as functions on name lookup) and the `janetc_copy` specifications. -/
+theorem compile_correct_statements (p : Program) (f0 : Frame) (rest : List Frame) (V : Array Value) (P : List JanetModel.Emit.KConst)
+    (hP : P.length < 65536)
+    (hK : ∀ i, i < P.length → (p.defs.getD f0.defIdx default).consts.getD i .nil = litOf V (P.getD i .nil))
+    (FF : FloatFacts) (G : String → Prop)
+    (fuel : Nat) (e : Expr) (opts : Fopts) (c c' : CState) (slot : JSlot) (sc : Scope) (rs : List Scope) (pool : List JanetModel.Emit.KConst)
+    (ps : List (List JanetModel.Emit.KConst)) (n : Nat) (cur : Pos) (env env' : Env) (s s' : SS) (v : Value)
+    (ht : opts.tail = false) (hh : opts.hint = none)
+    (hs : c.scopes = sc :: rs) (hp : c.pools = pool :: ps) (hl : c.lim ≤ 240) (htop : sc.top = false) (hfrag : TS G e)
+    (hcomp : cValue fuel opts e c = some (slot, c')) (hsem : eval n cur env e s = .ok (v, env') s')
+    (henv : EnvS G c.scopes env s.boxes.size sc.ra) :
+    ∃ (ra' : JanetModel.Emit.RA) (nsyms : List SymPair) (more : List JanetModel.Emit.KConst) (seg : List CI) (segm : List Pos),
+      c' = { c with scopes := { sc with ra := ra', syms := sc.syms ++ nsyms } :: rs, pools := (pool ++ more) :: ps, buf := c.buf ++ seg,
+                    map := c.map ++ segm, vals := c'.vals } ∧
+      PrefA c.vals c'.vals ∧ (∀ r, sc.ra.alloc r = true → ra'.alloc r = true) ∧ sc.ra.max ≤ ra'.max ∧
+      SlotOK2 sc ra' c'.scopes c'.vals slot ∧ PrefA s.boxes s'.boxes ∧ EnvS G c'.scopes env' s'.boxes.size ra' ∧
+      ∀ (k : Cfg), k.w = s.st.world → k.args = #[] → EnvD c.scopes env s k.regs →
+        CodeAt (p.defs.getD f0.defIdx default).code k.pc seg → PrefL (pool ++ more) P → PrefA c'.vals V → ra'.max < k.regs.size →
+        ∃ regs', Reach p (inj f0 rest k) (inj f0 rest { regs := regs', pc := k.pc + seg.length, args := #[], w := s'.st.world }) ∧
+          regs'.size = k.regs.size ∧ (∀ r, sc.ra.alloc r = true → regs'.getD r .nil = k.regs.getD r .nil) ∧ slotVal V regs' slot = v ∧
+          EnvD c'.scopes env' s' regs' :=
+  ts_correct p f0 rest V P hP hK FF G fuel e opts c c' slot sc rs pool ps n cur env env' s s' v ht hh hs hp hl htop hfrag hcomp hsem henv
+
+/-- non-vacuity: `(do (def x (tuple 7)) (do (def y x) (emit y)) x)` is in the fragment with `G = {tuple, emit}` -/
+example : TS (fun f => f = "tuple" ∨ f = "emit")
+    (.form [.sym "do", .form [.sym "def", .sym "x", .form [.sym "tuple", .lit (.num 7)] {}] {},
+            .form [.sym "do", .form [.sym "def", .sym "y", .sym "x"] {}, .form [.sym "emit", .sym "y"] {}] {}, .sym "x"] {}) := by
+  refine .doo _ _ (fun e he => ?_)
+  simp only [List.mem_cons, List.not_mem_nil, or_false] at he
+  rcases he with rfl | rfl | rfl
+  · exact .deff "x" _ {} (by decide) (.call1 "tuple" _ {} (by decide) (by decide) (Or.inl rfl) (.lit _ trivial))
+  · refine .doo _ _ (fun e he => ?_)
+    simp only [List.mem_cons, List.not_mem_nil, or_false] at he
+    rcases he with rfl | rfl
+    · exact .deff "y" _ {} (by decide) (.sym "x")
+    · exact .call1 "emit" _ {} (by decide) (by decide) (Or.inr rfl) (.sym "y")
+  · exact .sym "x"
+
+/-- non-vacuity: the invariant holds at the entry of a function body without parameters (no names on either side) -/
+example (G : String → Prop) (sc : Scope) (rs : List Scope) (h : ∀ x, lk (sc :: rs) x = none) (nb : Nat) :
+    EnvS G (sc :: rs) [] nb sc.ra := ⟨fun f _ => h f, fun x => Or.inl ⟨h x, rfl⟩⟩
+example (x : String) : lk [({ fn := true } : Scope)] x = none := rfl
+
 /-- `compile_correct` for the rest of the modelled fragment is NOT proved.  Proved of it: `compile_correct_calls` above, and
     (this theorem) the two atomic cases for every option set without hint / tail: a literal and a global function symbol compile
     to a constant slot, emit no code and leave scopes and buffer untouched.
+    Proved since: `compile_correct_statements` (`do`, `def` of a symbol in a local scope, sequencing, dropped values).
     Missing, exactly: (1) calls with 0 or ≥ 2 arguments (PUSH_2 / PUSH_3 grouping: operands held simultaneously), calls through
-    locals and computed heads (need closures in the VM relation); (2) `do` / `upscope` (scope push / pop: allocator clone, `max`
-    merge, keepslot), `if` (jumps, label patches: code layout of sub-forms under the patches; target copy `W.copy`), `def` / `var` /
-    `set` (environment extension: `Lang/Sem` box ↔ register), `while` / `break`, `fn` / closures / upvalues; (3) the error outcome
+    locals and computed heads (need closures in the VM relation); (2) `upscope` (same body function as `do`, no scope), `if` (jumps,
+    label patches: code layout of sub-forms under the patches; target copy through the hint), `var` / `set` (a register that is
+    written: the invariant needs injectivity of mutable names' registers), destructuring `def`, `while` / `break`, `fn` / closures /
+    upvalues (`janetc_popscope`'s `keep` reservations are modelled and compared word for word, not proved); (3) the error outcome
     (same error value at the source-map position: needs the model's `map` in `Correct`), tail position (RETURN / TAILCALL ends the
     activation), the dropped-value variant (same code here); (4) far registers (`lim` > 0xF0: the `emit_*_correct` theorems cover
     the emit layer, not yet connected).  Every construct outside `compile_correct_calls` stays translation-validated: model =
